@@ -200,7 +200,8 @@ fn eval_path(case: &Case, path: &str, h: RoomPowerLevels, t: &mut Tally) -> Vec<
                 cmp("user_can_do_to_user(Kick)", h.user_can_do_to_user(actor, target, PowerLevelUserAction::Kick), a.clone(), format!("target {target_m:?}"), t);
                 cmp("user_can_kick_user", h.user_can_kick_user(actor, target), a, format!("target {target_m:?}"), t);
             }
-            for target_m in [Some("leave"), None, Some("knock")] {
+            // (an invite may be sent again to somebody who is already invited: same rule, same level)
+            for target_m in [Some("leave"), None, Some("knock"), Some("invite")] {
                 if target_m == Some("knock") && v < 7 {
                     continue;
                 }
